@@ -98,9 +98,13 @@ PROPS = {
         'level': 'other',
         'explanation': (
             "Static census of the rejection paths: every raise site reachable while parsing/compiling raises a "
-            "ProgrammingError subclass (R-RAISE, 37 sites, 4 triaged exceptions); each acceptance rule of the statement "
-            "has a guard of the right shape in the function that owns it (R-GUARDS, 27 rows of tables/guards.json); "
-            "every site creating a target applies the aggregate checks (R-TARGETCHK); the guards themselves cannot "
+            "ProgrammingError subclass (R-RAISE, 37 sites, 4 triaged exceptions); each of 18 acceptance rules of the "
+            "statement is enforced: the handler, interpreted on an input that violates the rule (abstract expression "
+            "trees of aggregate / column / operator / constant nodes, unresolvable names, wrong clause combinations), ends in "
+            "a CompilationError, and on a satisfying input it does not (R-GUARDS); every site where an expression becomes a "
+            "target - SELECT list, new ORDER BY expression, HAVING, new GROUP BY expression - rejects the bad trees (mixed "
+            "aggregates, aggregates of aggregates directly or through an operator) and accepts the good ones (R-TARGETCHK); "
+            "the guards themselves cannot "
             "raise TypeError/AttributeError (R-GUARDSAFE, abstract interpretation of FROM/SELECT compilation with the "
             "From node typed from its annotations); positional references validated in the domain they are resolved "
             "in, bounds executed for positions 0, 1, n, n+1, -1 (R-IDXBOUND); operator handlers resolve overloads by "
